@@ -28,7 +28,9 @@ def valid(lp, np_):
 
 class GenBinding:
     def __init__(self, lp="eg", np_=None, labelmap="int", seed=9, n_jobs=1, backend=None, data_seed=5, dims=2, bin_name="none",
-                 epsilon=0.0, container="ndarray", nrows=10, perm_seed=None, shift=0, scale=1):
+                 epsilon=0.0, container="ndarray", nrows=10, perm_seed=None, shift=0, scale=1, preconv=None, addarm_bin=None):
+        self.preconv = preconv          # rewards are converted by this binarizer in the binding (no binarizer installed)
+        self.addarm_bin = addarm_bin    # add_arm installs this binarizer (or, with preconv, the binding switches to it)
         self.perm_seed = perm_seed
         self.shift = shift
         self.scale = scale
@@ -52,13 +54,17 @@ class GenBinding:
         self.data = []
         for i in range(nrows):
             label = labels[i % 3] if i < 6 else rnd.choice(labels + ["d"])
-            if lp == "ts" and bin_name == "none":
+            if lp == "ts" and bin_name == "none" and preconv is None:
                 reward = rnd.choice([0, 1])
             else:
                 reward = rnd.choice([0, 1, 2, 3])
-            self.data.append((label, reward, tuple(rnd.randrange(3) for _ in range(dims))))
+            # the later rows have fractional (dyadic) contexts: a history that starts with whole numbers and continues
+            # with fractions must not be truncated to integers
+            frac = 0.5 if i >= 6 and i % 2 == 0 else 0.0
+            self.data.append((label, reward, tuple(rnd.randrange(3) + frac for _ in range(dims))))
         self.queries = [tuple(rnd.randrange(-1, 4) for _ in range(dims)) for _ in range(4)] + [self.data[0][2]]
-        self.feat = {"a": [3, 4], "b": [4, 3], "c": [0, 5], "d": [5, 0]}
+        # a and b share a feature vector: a cold arm is exactly equally distant from two trained arms (tie-breaks)
+        self.feat = {"a": [3, 4], "b": [3, 4], "c": [4, 3], "d": [5, 0]}
         binarizers.configure({self.lm[k]: float(v) for k, v in {"a": 1, "b": 2, "c": 3, "d": 1}.items()}, 1.0)
         self.confluence_ok = np_ != "tree"
         self.single_fit_confluence = True
@@ -71,7 +77,7 @@ class GenBinding:
         return {"lp": self.lp, "np": self.np, "labels": self.lmname, "seed": self.seed, "n_jobs": self.n_jobs,
                 "backend": self.backend, "dims": self.dims, "bin": self.bin_name, "epsilon": self.epsilon,
                 "container": self.container, "data_seed": self.data_seed, "perm_seed": self.perm_seed,
-                "shift": self.shift, "scale": self.scale}
+                "shift": self.shift, "scale": self.scale, "preconv": self.preconv, "addarm_bin": self.addarm_bin}
 
     def probe_labels(self, mab, full):
         first = self.spec_label(mab.arms[0])
@@ -108,13 +114,17 @@ class GenBinding:
         return mab
 
     # ---- arguments ----------------------------------------------------------
-    def batch(self, ids):
+    def batch(self, ids, mab=None):
         rows = [self.data[i - 1] for i in ids]
+        conv = getattr(mab, "_verif_bin", None) or self.preconv
+        if conv:
+            fn = binarizers.BY_NAME[conv]
+            rows = [(a, float(fn(self.lm[a], float(x))), c) for a, x, c in rows]
         if self.perm_seed is not None:
             rows = list(rows)
             random.Random(self.perm_seed * 1000 + len(ids) + ids[0]).shuffle(rows)
         d = [self.lm[a] for a, _, _ in rows]
-        binary = self.lp == "ts" and self.bin_name == "none"
+        binary = self.lp == "ts" and self.bin_name == "none" and not self.preconv
         r = [int(x) for _, x, _ in rows] if binary else [float(x) * self.scale + self.shift for _, x, _ in rows]
         c = [[float(v) for v in x] for _, _, x in rows]
         kind = self.container
@@ -135,7 +145,9 @@ class GenBinding:
             big[::2] = r
             d, r, c = np.asarray(d), (big[::2] if not binary else np.asarray(r)), wide[:, ::2]
         elif kind == "int":
-            d, c = np.asarray(d), np.asarray(c).astype(int)
+            # whole numbers are passed as integer arrays, anything else as floats (per call, as a caller would)
+            d = np.asarray(d)
+            c = np.asarray(c) if any(float(v) != int(v) for row in c for v in row) else np.asarray(c).astype(int)
             r = np.asarray(r) if any(float(x) != int(x) for x in r) else np.asarray(r).astype(int)
         else:
             d, r, c = np.asarray(d), np.asarray(r), np.asarray(c)
@@ -217,8 +229,12 @@ class GenBinding:
         op = label["op"]
         try:
             if op in ("fit", "partial_fit"):
-                return "ok", getattr(mab, op)(*self.remember(self.batch(label["rows"])))
+                return "ok", getattr(mab, op)(*self.remember(self.batch(label["rows"], mab)))
             if op == "add_arm":
+                if self.addarm_bin and not self.preconv:
+                    return "ok", mab.add_arm(self.lm[label["arm"]], binarizers.BY_NAME[self.addarm_bin])
+                if self.addarm_bin:
+                    mab._verif_bin = self.addarm_bin
                 return "ok", mab.add_arm(self.lm[label["arm"]])
             if op == "remove_arm":
                 return "ok", mab.remove_arm(self.lm[label["arm"]])
@@ -266,6 +282,7 @@ class GenBinding:
             "add_nan": lambda: mab.add_arm(np.nan),
             "add_inf": lambda: mab.add_arm(np.inf),
             "add_binarizer_non_ts": lambda: mab.add_arm(unknown[0], binarizers.flip),
+            "add_binarizer_not_callable": lambda: mab.add_arm(unknown[0], "not a function"),
             "remove_unknown": lambda: mab.remove_arm(unknown[0]),
             "ws_not_dict": lambda: mab.warm_start([1, 2], 0.5),
             "ws_quantile_range": lambda: mab.warm_start({a: [1.0, 0.0] for a in arms}, 1.5),
@@ -287,6 +304,8 @@ class GenBinding:
                  "add_nan", "add_inf", "remove_unknown", "ws_not_dict", "ws_quantile_range", "ws_arms_mismatch"}
         if self.lp != "ts":
             kinds.add("add_binarizer_non_ts")
+        else:
+            kinds.add("add_binarizer_not_callable")
         if self.contextual:
             kinds |= {"fit_missing_contexts", "pfit_missing_contexts", "pfit_wrong_columns", "pfit_row_length", "ctx_1d",
                       "ctx_3d", "predict_missing_contexts"}
